@@ -799,6 +799,27 @@ Theorem C15_parse_well_formed_type :
 Proof. exact wf_type_line_parses. Qed.
 Print Assumptions C15_parse_well_formed_type.
 
+(* ... with the numbers printed as auditd prints them ([dec] = plain decimal, [dec3] = zero-padded to three digits,
+   Proofs/AuparseNum.v: both produce non-empty digit strings of the right value) and the newline the ingester leaves:
+   for EVERY type name without '=', all seconds / milliseconds below 2^63, every sequence number below 2^32 and every
+   body that is empty or ends in a non-white ASCII byte, the parse returns exactly those values, and RawData is the
+   text from "audit(" on WITHOUT the trailing newline *)
+Theorem C15_parse_well_formed_decimal :
+  forall (type_of : str -> option N) T t (sec msec sq : N) b,
+  ~ In c_eq T -> get_type type_of T = TyOk t ->
+  (sec < 2 ^ 63)%N -> (msec < 2 ^ 63)%N -> (sq < 2 ^ 32)%N -> clean_end b ->
+  parse_log_line type_of (type_token ++ T ++ c_sp :: msg_token ++ header_text (dec sec) (dec3 msec) (dec sq) ++ b ++ ["010"%char])
+  = POk (mkMsg t (Z.of_N sec) (Z.of_N msec) sq (index_of_message (c_rparen :: b))
+               (header_text (dec sec) (dec3 msec) (dec sq) ++ b)).
+Proof. exact wf_decimal_line_parses. Qed.
+Print Assumptions C15_parse_well_formed_decimal.
+
+Theorem C15_parse_decimal_printer : forall n : N,
+  (dec n <> [] /\ all_digits (dec n) = true /\ dec_val (dec n) = n) /\
+  (dec3 n <> [] /\ all_digits (dec3 n) = true /\ dec_val (dec3 n) = n).
+Proof. exact (fun n => conj (dec_spec n) (dec3_spec n)). Qed.
+Print Assumptions C15_parse_decimal_printer.
+
 (* the numbers as printed in plain decimal: digits ds (leading zeros or not) parse to their decimal value when it
    is in range; "+" ds the same for the int64 fields; "-" ds to the negative value; leading zeros never matter *)
 Theorem C15_parse_decimal_fields : forall ds : str, ds <> [] -> all_digits ds = true ->
@@ -852,6 +873,13 @@ Proof.
   vm_compute. repeat split; try reflexivity.
   intros H. repeat (destruct H as [H|H]; [discriminate H|]). exact H.
 Qed.
+
+Example C15_parse_example_decimal :
+  type_token ++ s2l "SYSCALL" ++ c_sp :: msg_token ++ header_text (dec 1690000000) (dec3 7) (dec 42) ++ s2l ": a=1" ++ ["010"%char]
+  = s2l "type=SYSCALL msg=audit(1690000000.007:42): a=1" ++ ["010"%char] /\
+  parse_log_line c15_tbl (s2l "type=SYSCALL msg=audit(1690000000.007:42): a=1" ++ ["010"%char])
+  = POk (mkMsg 1300 1690000000 7 42 1 (s2l "audit(1690000000.007:42): a=1")).
+Proof. vm_compute. split; reflexivity. Qed.
 
 (* SURPRISING inputs, as the real parser treats them (each also among the harness' generated classes) *)
 (* 1. the first five bytes are skipped unchecked: a line need not begin with "type=" *)
